@@ -251,7 +251,9 @@ def run_harness(root, cases_path, out_path, timeout, per_case_timeout=60, binary
             try:
                 p = subprocess.run(["bash", "-c", "ulimit -v 12000000; exec %s run" % hbin], stdin=fin, stdout=fout,
                                    stderr=subprocess.PIPE, timeout=max(10, t_end - time.time()), env=env)
-                if p.returncode != 0:
+                if p.returncode == 66:
+                    status = "RACE-DETECTED"   # the Go race detector halted the process (GORACE exitcode=66)
+                elif p.returncode != 0:
                     status = "CRASH"
             except subprocess.TimeoutExpired:
                 status = "HANG"
